@@ -33,8 +33,12 @@ fi
 "$OUT/kshimgen" -ast "$OUT/ast.json" -src "$OUT/kern/tproxy.c" -defs "$OUT/kern/ebpf_sync_defs.h" -out "$OUT/kdrv_gen.h" >"$OUT/kshimgen.log" 2>&1 \
   || { cat "$OUT/kshimgen.log" >&2; fail "kshimgen"; }
 rm -f "$OUT/ast.json"
-FLAGS=(-O2 -g)
-[ "$SAN" = "--san" ] && FLAGS=(-O1 -g -fsanitize=address,undefined -fno-sanitize=alignment -fno-sanitize-recover=all -fno-omit-frame-pointer)
+# Uninitialised automatic storage of the kernel program (padding included) must never happen to be zero in the native
+# run: every uninitialised local is filled with 0xAA (deterministic), and kdrv additionally poisons the stack below the
+# call site with 0xA5 before every program / route() / parse invocation.
+INIT=(-ftrivial-auto-var-init=pattern)
+FLAGS=(-O2 -g "${INIT[@]}")
+[ "$SAN" = "--san" ] && FLAGS=(-O1 -g "${INIT[@]}" -fsanitize=address,undefined -fno-sanitize=alignment -fno-sanitize-recover=all -fno-omit-frame-pointer)
 "$CC" "${FLAGS[@]}" -Wall -Wno-unused-function -Wno-unused-variable -Wno-unused-but-set-variable \
   "${INC[@]}" -I"$OUT" -DKSHIM_TPROXY_C="\"$OUT/kern/tproxy.c\"" "$HERE/kdrv.c" -o "$OUT/kdrv" >"$OUT/cc.log" 2>&1 \
   || { head -60 "$OUT/cc.log" >&2; fail "kdrv does not compile/link (new helper or construct in tproxy.c? extend $HERE/kdrv.c / headers)"; }
